@@ -24,7 +24,7 @@ def _extra(cd):
         st.just("self"),
         st.sampled_from([b"\x00", b"\xff", b"\x80\x80\x80\x80\x80\x80", b"\x01\x00\x00"]),
     )
-    tz = st.sampled_from([0, 0, 60, -300, 330, 765, -720, "Europe/Paris", "America/St_Johns", "Australia/Lord_Howe", "Asia/Kathmandu"])
+    tz = st.sampled_from([0, 0, 60, -300, 330, 765, -720, "Europe/Paris", "Europe/Paris", "America/New_York", "America/St_Johns", "Australia/Lord_Howe", "Asia/Kathmandu"])
     return st.tuples(tail, tz)
 
 
@@ -57,6 +57,16 @@ def check(cd, tree, extra):
     tail, tzmin = extra
     x = to_entity(cd, tree)
     x_in = _rezone(x, tzmin)
+    comp = K.dst_companion(x)
+    if comp is not None:
+        # a timestamp near a DST transition: hand it over in that zone, right after encoding its mirror image (the other
+        # fold twin / the other side of the offset change on the same local day) with the same tzinfo object
+        _zone, x_in, mirrored = comp
+        note("dst_companion_cases")
+        try:
+            K.encode(cd.cls, mirrored)
+        except Exception:
+            pass
     try:
         ref_encode(cd, from_entity(cd, x))
         oversize = False
@@ -83,7 +93,12 @@ def check(cd, tree, extra):
         return (f"decode-raised:{K.exc_signature(e)}", f"{cd.path}: decoding {b.hex()} (+tail) raised {e!r}")
     out = []
     d = K.diff_path(x, y)
-    if d is not None or x_in != y:
+    if d is None and x_in != y and x == y:
+        # PEP 495: an aware datetime inside a repeated (fold-ambiguous) hour never compares equal to a datetime of ANOTHER
+        # zone, whatever the instants.  The decoder returns UTC datetimes, so for such values `==` cannot hold by
+        # construction of Python's datetime; they are compared by instant (x is the same instance expressed in UTC).
+        note("pep495_interzone_inequality_compared_by_instant")
+    elif d is not None or x_in != y:
         out.append((f"value-mismatch:{d}", f"{cd.path}: wrote {x_in!r}\n read {y!r}\n bytes {b.hex()}"))
     if src.tell() != len(b):
         out.append(
@@ -127,6 +142,7 @@ SPEC = TreeSpec(
     assumptions=(
         "round trip is kio-vs-kio; independence from kio's own reading of the format comes from C02/C03",
         "instances are built by kv.refcodec.to_entity from generated wire trees (well-typed, whole-ms)",
+        "aware datetimes inside a repeated DST hour compare unequal to every datetime of another zone (PEP 495); for those the decoded UTC value is compared by instant",
     ),
     floors={"array_empty": 0.02, "multibyte_text": 0.02, "nontrivial": 0.05},
 )
